@@ -31,7 +31,7 @@ def run(c):
         harness(c, 40000, 12000)
 
     c.assumptions += [
-        "address.SelectIDNA / dns.SelectIDNA (x/net/idna, x/text NFC) are parameters of the model (Idna); each run ships the table of their real results for the strings of the case",
+        "dns.SelectIDNA and the two library calls under address.SelectIDNA - idna.ToASCII(domain), NFC(idna.ToUnicode(domain)) - are parameters of the model (Idna.dom, DomConv); each run ships the table of the LIBRARY's results for the domains of the case (computed by the harness from x/net/idna + x/text, not through maddy's address package); address.Split / ToASCII / ToUnicode / SelectIDNA themselves are mirrored (Dsn.splitAddr, toASCII, toUnicode, selectIDNA)",
         "C18_lists_exactly_failed_under_original_addresses assumes RecordsRoot (the rewrite map names the sender's address directly): proved to be what ONE pipeline level produces (C18_one_pipeline_records_root); two nested levels violate it (C18_two_level_rewriting_counterexample, KF-C18-1)",
         "byte-level well-formedness of the MIME serialisation (go-message multipart writer, header folding) is not modelled: established per generated report by an independent stdlib parse (sampling) — C18_report_structure_partial is the proved part",
         "the theorems about attempt/emitDSN hold for an ARBITRARY per-recipient error function of the attempt; which error value Queue.deliver attributes to whom is mirrored by deliverErrs (Start / RCPT / DATA or per-recipient status / Commit), proved to have the classes of C01's deliver (deliverErrs_cls) and driven against the real queue with a scripted target failing at every stage",
@@ -45,7 +45,8 @@ def run(c):
         "rewritten by the pipeline) or handed to Queue.Start directly with a prepared OriginalRcpts (0-3 levels), on a scripted atomic or PartialDelivery target answering every stage: Start refused, "
         "1-6 recipients refused at RCPT, the message then refused at DATA (or per accepted recipient) or at Commit, error values "
         "generated from maddy's wrapping primitives (88% coherent, incl. annotations without enhanced code), senders null / rewritten / IDN / EAI, recipients incl. sibling "
-        "chains, several failed members of one alias, two spellings of one mailbox differing in case, ASCII / upper-case / A-label / U-label / quoted / long / EAI spellings, HELO names incl. unconvertible ones, bounce pipeline failing at Start / AddRcpt / Body / Commit; "
+        "chains, several failed members of one alias, two spellings of one mailbox differing in case, ASCII / upper-case / mixed-case / A-label / U-label / quoted / long / EAI spellings, local parts that are NOT in NFC "
+        "(combining sequence, U+212B, conjoining jamo, decomposed inside a quoted string), with compatibility / full-width characters, with U+00DF / U+0130 in mixed case - for recipients, rewrite targets and senders, the domain-less postmaster (gen), HELO names incl. unconvertible ones, bounce pipeline failing at Start / AddRcpt / Body / Commit; "
         "every report is serialised, parsed with net/mail + mime/multipart + net/textproto, rendered canonically and compared with the Lean model's report, the whole bounce-call trace "
         "and retry sets included; (loop) two real queues that are each other's bounce route with targets refusing everything; distinct = distinct op lines",
         explanation="theorems over all recipient lists, error values, rewrite maps, namings, IDNA behaviours and failing stages; model tied to queue.go/dsn.go by differential runs through the real queue "
